@@ -603,9 +603,13 @@ def _extract_coefficient_impl(expr: Expression, var: Variable) -> float:
                 return _extract_coefficient_impl(expr.left, var) * float(
                     expr.right.value
                 )
-            # For linear expressions, at least one side must be constant
-            # This fallback handles edge cases where constants are nested
-            return 0.0
+            # Neither side is a Constant node, so one side is a constant
+            # sub-expression such as (2 + 3): coef(l*r) = const(l)*coef(r) + coef(l)*const(r)
+            return _extract_constant_impl(expr.left) * _extract_coefficient_impl(
+                expr.right, var
+            ) + _extract_coefficient_impl(expr.left, var) * _extract_constant_impl(
+                expr.right
+            )
 
         if expr.op == "/":
             # Division by constant
@@ -672,9 +676,19 @@ def _extract_constant_impl(expr: Expression) -> float:
     if isinstance(expr, Variable):
         return 0.0
 
-    # Vector expressions have no constant term (purely linear)
-    if isinstance(expr, (LinearCombination, VectorSum)):
+    # Sums / combinations of plain variables have no constant term
+    if isinstance(expr, VectorSum):
         return 0.0
+    if isinstance(expr, LinearCombination):
+        from optyx.core.vectors import VectorVariable
+
+        if isinstance(expr.vector, VectorVariable):
+            return 0.0
+        # VectorExpression - weighted sum of the elements' constant terms
+        total = 0.0
+        for i, elem in enumerate(expr.vector._expressions):
+            total += float(expr.coefficients[i]) * _extract_constant_impl(elem)
+        return total
 
     if isinstance(expr, BinaryOp):
         if expr.op == "+":
@@ -693,7 +707,10 @@ def _extract_constant_impl(expr: Expression) -> float:
                 return float(expr.left.value) * _extract_constant_impl(expr.right)
             if isinstance(expr.right, Constant):
                 return _extract_constant_impl(expr.left) * float(expr.right.value)
-            return 0.0
+            # one side is a constant sub-expression (its constant term is its value)
+            return _extract_constant_impl(expr.left) * _extract_constant_impl(
+                expr.right
+            )
 
         if expr.op == "/":
             if isinstance(expr.right, Constant):
@@ -705,6 +722,8 @@ def _extract_constant_impl(expr: Expression) -> float:
                 exp = int(expr.right.value)
                 if exp == 0:
                     return 1.0  # x**0 = 1
+                # (linear)**1 keeps its constant term; (constant)**k is a constant
+                return _extract_constant_impl(expr.left) ** exp
             return 0.0
 
     if isinstance(expr, UnaryOp):
@@ -945,7 +964,16 @@ def _extract_all_coefficients_impl(
                     expr.left, var_index, result, multiplier * float(expr.right.value)
                 )
                 return
-            # Both sides non-constant - no linear contribution
+            # Neither side is a Constant node, so one side is a constant
+            # sub-expression such as (2 + 3): scale the other side by its value
+            left_const = _extract_constant_impl(expr.left)
+            right_const = _extract_constant_impl(expr.right)
+            _extract_all_coefficients_impl(
+                expr.right, var_index, result, multiplier * left_const
+            )
+            _extract_all_coefficients_impl(
+                expr.left, var_index, result, multiplier * right_const
+            )
             return
 
         if expr.op == "/":
